@@ -8,7 +8,8 @@ ID = "C39"
 # ---------------------------------------------------------------------------------------------
 # Which model the check ties to the working tree:
 #   "pinned" : Model/DecFloat.v mirrors Decimal.Float64 as it is in the pinned tree (defects included);
-#              Props/C39.v carries the refutations + the partial theorem.
+#              Archive/C39Pinned.v carries the refutations + the partial theorem (not part of the default build: it
+#              compiles only against the tables of the pinned tree, see coq/Archive/README.md).
 #   "fixed"  : Model/DecFloatFixed.v mirrors the repaired code (see the repair diff in the report);
 #              Props/C39Fixed.v carries the full theorems.
 VARIANT = "fixed"
@@ -17,8 +18,8 @@ VARIANT = os.environ.get("C39_VARIANT", VARIANT)   # override for trying the oth
 
 if VARIANT == "pinned":
     COQ_FILES = ["Common/Corr.v", "Model/DecFloatTables.v", "Model/DecFloat.v", "Proofs/DecFloat.v",
-                 "Proofs/DecFloatRefuted.v", "Props/C39.v"]
-    PROPS = "Props/C39.v"
+                 "Archive/DecFloatRefuted.v", "Archive/C39Pinned.v"]
+    PROPS = "Archive/C39Pinned.v"
     THEOREMS = ["C39_float64_correctly_rounded_refuted", "C39_float64_correctly_rounded_refuted_table_entry",
                 "C39_exact_flag_refuted", "C39_float64_correctly_rounded_partial", "C39_exact_flag_sound_partial",
                 "C39_parse_float_assumption_realisable"]
